@@ -62,6 +62,32 @@ def _cvc5_worker(args):
 
 
 _TERMS = []
+_FRESH = None
+
+
+def vc_hash(smt):
+    """canonical hash of a verification condition: fresh-name counters (`x!17`) are renumbered in order of first appearance inside the
+    assertions, declarations are sorted; two runs that generate the same VC from the same source give the same hash, independent of which
+    kernels ran before. A VC that a solver once refuted (unsat) is a mathematical fact about that text: baseline/proofs.json records such hashes."""
+    import hashlib
+    import re
+    global _FRESH
+    if _FRESH is None:
+        _FRESH = re.compile(r"([A-Za-z_][A-Za-z_0-9\.\[\]]*)!(\d+)|([$?]x)(\d+)")
+    lines = smt.splitlines()
+    decl = [l for l in lines if l.startswith("(declare-") or l.startswith("(define-")]
+    rest = "\n".join(l for l in lines if not (l.startswith("(declare-") or l.startswith("(define-") or l.startswith(";") or l.startswith("(set-")))
+    m = {}
+
+    def ren(mo):
+        k = mo.group(0)
+        if k not in m:
+            m[k] = f"{mo.group(1) or mo.group(3)}!{len(m)}"
+        return m[k]
+
+    rest = _FRESH.sub(ren, rest)
+    decl = sorted(_FRESH.sub(lambda mo: m.get(mo.group(0), (mo.group(1) or mo.group(3)) + "!unused"), d) for d in decl)
+    return hashlib.sha256(("\n".join(decl) + "\n" + rest).encode()).hexdigest()[:32]
 
 
 def _z3_direct(args):
@@ -83,10 +109,12 @@ def _z3_direct(args):
                 model = s.model().sexpr()[:4000]
             except Exception:
                 model = ""
-        smt = s.to_smt2() if r == "unknown" else ""
-        return r, time.time() - t0, reason, model, smt
+        dt = time.time() - t0
+        full = s.to_smt2()
+        smt = full if r == "unknown" else ""
+        return r, dt, reason, model, smt, vc_hash(full)
     except Exception as e:
-        return "unknown", time.time() - t0, f"z3 error: {e}", "", ""
+        return "unknown", time.time() - t0, f"z3 error: {e}", "", "", ""
 
 
 def discharge_terms(items, z3_timeout_s=10, cvc5_timeout_s=20, procs=None):
@@ -105,8 +133,8 @@ def discharge_terms(items, z3_timeout_s=10, cvc5_timeout_s=20, procs=None):
     with ctx.Pool(min(procs, len(items))) as pool:
         zr = pool.map(_z3_direct, [(i, int(z3_timeout_s * 1000)) for i in range(len(items))], chunksize=1)
         open_idx = []
-        for i, (r, dt, reason, model, smt) in enumerate(zr):
-            res.append({"name": items[i][0], "verdict": r, "backend": "z3", "seconds": round(dt, 3), "reason": reason, "model": model})
+        for i, (r, dt, reason, model, smt, h) in enumerate(zr):
+            res.append({"name": items[i][0], "verdict": r, "backend": "z3", "seconds": round(dt, 3), "reason": reason, "model": model, "vc": h})
             if r == "unknown":
                 open_idx.append((i, smt))
         if open_idx:
